@@ -84,6 +84,16 @@ CLAIMS = {
             "published CFLZ families k=1..20 give a lower bound on OPT, perturbed by up to 4 extra items and a generated arrival order.",
             "The guarantees are increasing in OPT, so a count below the guarantee at a certified lower bound of OPT is a violation.",
             "DESIGN.md 6/C10"),
+    "C13": ("exploration", "bounded-exhaustive enumeration + property-based testing of three extension points against brute-force oracles (water-filling optimum, all 2^n subsets, all k! pairings)",
+            "(a) Objective.lower_bound of the three bounded objectives on every sorted vector of <=4 sums over 0..5 x remaining totals 0..7 "
+            "(thorough: <=5 sums over 0..6, totals 0..9) and on generated vectors up to 10^9 incl. the floor/ceil boundaries: one value whatever "
+            "the sorted flag, order or container type, never above the best value reachable by distributing the remaining total. "
+            "(b) InExclusionBinTree.generate_tree on every list of <=4|5 values over 0..3 x every integer window and on generated lists of <=10 "
+            "named items with zeros and repeats x inner / edge / empty / negative / half-integral windows: the multiset of yielded sets equals "
+            "the multiset of all index subsets inside the window. (c) all_combinations of both managers on 1-5 bins incl. forced "
+            "equal-sum-different-content bins: canonical forms yielded = canonical forms over all k! pairings, each exactly once.",
+            "Direct calls on documented extension points; integer sums; string names.",
+            "DESIGN.md 6/C13"),
     "C14": ("exploration", "differential property-based testing against reference models transcribed from the documentation",
             "Each of the nine simple heuristics is compared with a direct transcription of its documented rule "
             "(pbt/refmodels.py) on up to 40 items incl. ties, exact fills and the class thresholds C/2, C/3: sorted bin "
